@@ -398,6 +398,18 @@ where
             std::thread::Builder::new()
                 .stack_size(64 << 20)
                 .spawn_scoped(scope, move || {
+                    // a panic in this thread outside the guarded oracle call (strategy construction,
+                    // value generation) is a harness error; without this the monitor would wait forever
+                    struct ShardGuard;
+                    impl Drop for ShardGuard {
+                        fn drop(&mut self) {
+                            if std::thread::panicking() {
+                                eprintln!("INFRA: a shard thread of the harness panicked outside the oracle");
+                                std::process::exit(2);
+                            }
+                        }
+                    }
+                    let _guard = ShardGuard;
                     let config = Config {
                         cases: cases as u32,
                         failure_persistence: None,
